@@ -1,10 +1,11 @@
 package conf
 
-import "github.com/z7zmey/php-parser/pkg/version"
+import (
+	"github.com/z7zmey/php-parser/pkg/errors"
+	"github.com/z7zmey/php-parser/pkg/version"
+)
 
 type Config struct {
 	Version          *version.Version
-	ErrorHandlerFunc func(e *Error)
+	ErrorHandlerFunc func(e *errors.Error)
 }
-
-type Error struct{ Msg string }
